@@ -1,15 +1,28 @@
-"""C05 -- reported states are consistent with every conditional simple control (re-solve discipline, action plumbing, partial steps)."""
+"""C05 -- reported states are consistent with every conditional simple control (re-solve discipline, action plumbing, partial steps).
+
+The facts are decided on what the code computes, not on how it is spelled:
+* path obligations of run_sim are reachability questions on its CFG; the nodes that play a role (change test, flag that suppresses the
+  pre-solve phase, trial counter, time advance) are found by what they do, temporaries are followed through their single definition;
+* small pure functions (ControlAction.__init__, Comparison.parse, ValueCondition.__new__, Control.__init__/update_condition,
+  Control._conditional_control, the INP reader of a conditional control line) are EVALUATED on a finite set of inputs by a concrete
+  interpreter with opaque objects (`_concrete`), so if/elif chains, early returns, lookup tables and conditional expressions are alike;
+* effects of methods (setattr + notify, the change tracker's bookkeeping, what is reported / stored as pressure) are read off the
+  events of a path-enumerating symbolic execution (sa/symx.py), in which locals and hoisted sub-expressions disappear.
+"""
 import ast
+import copy
 import re
 
 from ..src import walk, calls, call_name, dotted, const, loc, unparse, norm, AnchorError, ExtractError, last_attr, parent
 from ..cfg import CFG
-from ..peval import Evaluator, Obj, Unknown
+from ..peval import Evaluator, Obj, Unknown, Raised, Returned
+from ..symx import SymExec, Opaque
 
 CORE = "wntr/sim/core.py"
 CTRL = "wntr/network/controls.py"
 HYD = "wntr/sim/hydraulics.py"
 IO = "wntr/epanet/io.py"
+BASE = "wntr/network/base.py"
 
 EXPLANATION = (
     "Path rules on run_sim's CFG: results are saved, the accepted state stored and time advanced only on the path where no post-solve control "
@@ -24,6 +37,581 @@ RULE_TEXT = "one instance = one path obligation or one plumbing fact (mapping en
 ASSUMPTIONS = ["equal-priority conflicts between triggered controls are outside the statement's guarantee", "effective status = f(user, internal) is decided under C02 (R-C02-7)"]
 
 
+# ====================================================================================================================
+# def-use helpers (AST level)
+# ====================================================================================================================
+def _name_defs(fn):
+    """local name -> list of the values assigned to it by plain `name = value` statements; names that are also bound in another way
+    (augmented assignment, loop / with / except target, tuple unpacking, parameter) map to None: they are never expanded."""
+    defs, other = {}, set()
+    for a in fn.args.args + fn.args.kwonlyargs + fn.args.posonlyargs:
+        other.add(a.arg)
+    for va in (fn.args.vararg, fn.args.kwarg):
+        if va is not None:
+            other.add(va.arg)
+    for n in walk(fn):
+        if isinstance(n, ast.Assign):
+            for t in n.targets:
+                if isinstance(t, ast.Name):
+                    defs.setdefault(t.id, []).append(n.value)
+                else:
+                    for x in ast.walk(t):
+                        if isinstance(x, ast.Name) and isinstance(x.ctx, ast.Store):
+                            other.add(x.id)
+        elif isinstance(n, ast.AnnAssign) and isinstance(n.target, ast.Name) and n.value is not None:
+            defs.setdefault(n.target.id, []).append(n.value)
+        elif isinstance(n, ast.AugAssign) and isinstance(n.target, ast.Name):
+            other.add(n.target.id)
+        elif isinstance(n, (ast.For, ast.comprehension)):
+            for x in ast.walk(n.target):
+                if isinstance(x, ast.Name):
+                    other.add(x.id)
+        elif isinstance(n, ast.NamedExpr):
+            other.add(n.target.id)
+        elif isinstance(n, ast.ExceptHandler) and n.name:
+            other.add(n.name)
+        elif isinstance(n, ast.With):
+            for it in n.items:
+                if it.optional_vars is not None:
+                    for x in ast.walk(it.optional_vars):
+                        if isinstance(x, ast.Name):
+                            other.add(x.id)
+    for k in other:
+        defs[k] = None
+    return defs
+
+
+def _expand(fn, expr, depth=6, _defs=None):
+    """copy of expr in which every local that has exactly ONE definition in fn is replaced by that definition (temporaries vanish)."""
+    defs = _defs if _defs is not None else _name_defs(fn)
+
+    class T(ast.NodeTransformer):
+        def __init__(self, d):
+            self.d = d
+
+        def visit_Name(self, n):
+            if isinstance(n.ctx, ast.Load) and self.d > 0 and defs.get(n.id) is not None and len(defs[n.id]) == 1:
+                return T(self.d - 1).visit(copy.deepcopy(defs[n.id][0]))
+            return n
+
+        def visit_Lambda(self, n):
+            return n
+    return T(depth).visit(copy.deepcopy(expr))
+
+
+def _atom(test):
+    """truth-atom of a test: (expression, polarity).  `not x`, `x == False`, `x is False`, `x != True`, `bool(x)` ... are all the atom x."""
+    pol = True
+    while True:
+        if isinstance(test, ast.UnaryOp) and isinstance(test.op, ast.Not):
+            pol, test = not pol, test.operand
+            continue
+        if isinstance(test, ast.Compare) and len(test.ops) == 1 and isinstance(test.ops[0], (ast.Eq, ast.NotEq, ast.Is, ast.IsNot)):
+            l, r = test.left, test.comparators[0]
+            cb = [x for x in (l, r) if isinstance(x, ast.Constant) and isinstance(x.value, bool)]
+            if len(cb) == 1:
+                other = r if cb[0] is l else l
+                same = isinstance(test.ops[0], (ast.Eq, ast.Is))
+                pol = pol if (cb[0].value == same) else not pol
+                test = other
+                continue
+        if isinstance(test, ast.Call) and isinstance(test.func, ast.Name) and test.func.id == "bool" and len(test.args) == 1 and not test.keywords:
+            test = test.args[0]
+            continue
+        return test, pol
+
+
+def _conjuncts(test, pol=True):
+    """atoms that are FORCED when `test` has truth value pol: [(atom expression, polarity)]."""
+    a, p = _atom(test)
+    p = p if pol else not p
+    if isinstance(a, ast.BoolOp):
+        if isinstance(a.op, ast.And) and p:
+            return [c for v in a.values for c in _conjuncts(v, True)]
+        if isinstance(a.op, ast.Or) and not p:
+            return [c for v in a.values for c in _conjuncts(v, False)]
+        return []
+    return [(a, p)]
+
+
+# ====================================================================================================================
+# symbolic execution helpers
+# ====================================================================================================================
+def _sx(decide=None, attrs=None):
+    """SymExec in which (a) a call through a local alias is the call of the aliased value, (b) calls selected by `decide`
+    (f(call text, last name) -> bool | None) and attributes listed in `attrs` (text -> value, or f(base text, attr) -> value |
+    NotImplemented) have a fixed value: a finite case split that decides if-statements and conditional expressions alike."""
+    def call_hook(name, n, args, kwargs, st, ex, recv):
+        fn_txt = None
+        if isinstance(n.func, ast.Name) and isinstance(st.env.get(n.func.id), Opaque):
+            fn_txt = st.env[n.func.id].text
+        elif name and not name.startswith("?."):
+            fn_txt = name
+        if fn_txt is None:
+            return NotImplemented
+        txt = "%s(%s)" % (fn_txt, ", ".join([ex.text(a) for a in args] + ["%s=%s" % (k, ex.text(v)) for k, v in kwargs.items()]))
+        if decide is not None:
+            r = decide(txt, fn_txt.split(".")[-1])
+            if r is not None:
+                return r
+        if fn_txt != name:
+            st.events.append(("call", txt, (fn_txt, args, kwargs), getattr(n, "lineno", 0), tuple(l[1] for l in st.loops)))
+            return Opaque(txt)
+        return NotImplemented
+
+    def attr_hook(base, attr, st):
+        if attrs is None or not isinstance(base, Opaque):
+            return NotImplemented
+        if callable(attrs):
+            return attrs(base.text, attr)
+        key = base.text + "." + attr
+        return attrs[key] if key in attrs else NotImplemented
+    return SymExec(call_hook=call_hook, attr_hook=attr_hook)
+
+
+def _live(outs):
+    return [o for o in outs if o.raised is None]
+
+
+def _call_events(o):
+    """[(callee text, [arg texts], {kw: text}, innermost loop iterable text or None, index in the event list)] of one path"""
+    out = []
+    for i, e in enumerate(o.events):
+        if e[0] != "call":
+            continue
+        txt = e[1]
+        callee = txt[:_matching_open(txt)]
+        name, args, kwargs = e[2]
+        loops = e[4] if len(e) > 4 else ()
+        out.append((callee, [_t(a) for a in args], dict((k, _t(v)) for k, v in kwargs.items()), loops[-1] if loops else None, i))
+    return out
+
+
+def _matching_open(txt):
+    """index of the '(' that matches the final ')' of a call text"""
+    depth = 0
+    for i in range(len(txt) - 1, -1, -1):
+        c = txt[i]
+        if c == ")":
+            depth += 1
+        elif c == "(":
+            depth -= 1
+            if depth == 0:
+                return i
+    return len(txt)
+
+
+def _t(v):
+    if isinstance(v, Opaque):
+        return v.text
+    if isinstance(v, str):
+        return repr(v)
+    if isinstance(v, (list, tuple)):
+        return "(" + ", ".join(_t(x) for x in v) + ")"
+    return str(v)
+
+
+def _loop_vars(o):
+    """loop iterable text -> [target names] for the loops entered on this path"""
+    out = {}
+    for e in o.events:
+        if e[0] == "loop" and e[1] != "while":
+            out[e[2]] = [x.strip() for x in e[1].strip("()").split(",")]
+    return out
+
+
+def _strip_round(node):
+    """np.round(x, 10) / round(x, 10) / np.around(x, decimals=10) -> (x, 10); anything else -> (node, None)"""
+    if isinstance(node, ast.Call) and last_attr(node) in ("round", "around", "round_") and node.args:
+        d = node.args[1] if len(node.args) > 1 else next((k.value for k in node.keywords if k.arg in ("decimals", "ndigits")), None)
+        return node.args[0], (const(d) if d is not None else 0)
+    return node, None
+
+
+# ====================================================================================================================
+# concrete evaluation with opaque objects
+# ====================================================================================================================
+class _Opq(Obj):
+    """an object nothing is known about except its name (an unbound global, the result of an unmodelled call ...).  Its attributes are
+    opaque objects again; its truth value is unknown (asking for it aborts the evaluation)."""
+    pass
+
+
+def _concrete(repo, rel, user_hook=None, inline_depth=6):
+    """-> (make, log): make(env) builds an evaluator; log collects every call that was not interpreted as (name, args, kwargs).
+    Interpreted: the string/regex helpers of _shared._string_evaluator, isinstance over the class hierarchy of `rel`, getattr/setattr/
+    hasattr on abstract objects, dict/list methods, comprehensions, f-strings, for/try statements, and calls of methods of the classes of
+    `rel` through self / cls / super() / the class name (evaluated recursively on their bodies)."""
+    from ._shared import _string_evaluator
+    Ev0, hook0 = _string_evaluator(repo)
+    classes = repo.classes(rel)
+    log = []
+
+    def bases(cname):
+        out, todo = [], [cname]
+        while todo:
+            c = todo.pop(0)
+            if c in out:
+                continue
+            out.append(c)
+            if c in classes:
+                for b in classes[c].bases:
+                    for x in ast.walk(b):
+                        if isinstance(x, ast.Name) and x.id in classes:
+                            todo.append(x.id)
+                        elif isinstance(x, ast.Attribute) and x.attr in classes:
+                            todo.append(x.attr)
+        return out
+
+    def find_method(cname, meth, skip_first=False):
+        for c in bases(cname)[1 if skip_first else 0:]:
+            if c in classes:
+                for n in classes[c].body:
+                    if isinstance(n, ast.FunctionDef) and n.name == meth and not any(isinstance(d, ast.Attribute) and d.attr == "setter" for d in n.decorator_list):
+                        return c, n
+        return None, None
+
+    def class_attr(d):
+        return _Opq(d)
+
+    def attr_hook(base, attr):
+        if isinstance(base, Obj) and attr not in base.attrs:
+            if isinstance(base, _Opq):
+                return _Opq(base.name + "." + attr)
+        if isinstance(base, dict) and attr in ("keys", "values", "items", "get"):
+            return NotImplemented
+        return NotImplemented
+
+    class Ev(Ev0):
+        depth = 0
+        owner = None           # class whose method body is being evaluated (for super())
+
+        # ---- expressions
+        def e_Dict(self, n):
+            out = {}
+            for k, v in zip(n.keys, n.values):
+                if k is None:
+                    out.update(self.ev(v))
+                else:
+                    out[self.ev(k)] = self.ev(v)
+            return out
+
+        def e_Subscript(self, n):
+            b = self.ev(n.value)
+            if isinstance(b, _Opq):
+                k = self.ev(n.slice) if not isinstance(n.slice, ast.Slice) else unparse(n.slice)
+                return _Opq("%s[%r]" % (b.name, k))
+            if isinstance(b, dict):
+                k = self.ev(n.slice)
+                if k not in b:
+                    raise Raised(n)
+                return b[k]
+            try:
+                return Ev0.e_Subscript(self, n)
+            except (IndexError, KeyError, TypeError):
+                raise Raised(n)
+
+        def _comp(self, gens, i, emit):
+            if i == len(gens):
+                emit()
+                return
+            g = gens[i]
+            it = self.ev(g.iter)
+            if isinstance(it, dict):
+                it = list(it.keys())
+            if not isinstance(it, (list, tuple, str)):
+                raise Unknown("comprehension over %r" % (it,))
+            for x in it:
+                self.assign(g.target, x)
+                if all(self.truth(self.ev(c)) for c in g.ifs):
+                    self._comp(gens, i + 1, emit)
+
+        def e_ListComp(self, n):
+            out = []
+            saved = dict(self.env)
+            self._comp(n.generators, 0, lambda: out.append(self.ev(n.elt)))
+            self.env = saved
+            return out
+
+        e_GeneratorExp = e_ListComp
+        e_SetComp = e_ListComp
+
+        def e_DictComp(self, n):
+            out = {}
+            saved = dict(self.env)
+
+            def emit():
+                out[self.ev(n.key)] = self.ev(n.value)
+            self._comp(n.generators, 0, emit)
+            self.env = saved
+            return out
+
+        def e_JoinedStr(self, n):
+            out = []
+            for v in n.values:
+                if isinstance(v, ast.Constant):
+                    out.append(str(v.value))
+                else:
+                    x = self.ev(v.value)
+                    if v.conversion == 115:
+                        x = str(x)
+                    elif v.conversion == 114:
+                        x = repr(x)
+                    spec = self.ev(v.format_spec) if v.format_spec is not None else ""
+                    try:
+                        out.append(format(x, spec))
+                    except (TypeError, ValueError):
+                        out.append(str(x))
+            return "".join(out)
+
+        def e_Lambda(self, n):
+            return _Opq("<lambda>")
+
+        def e_Starred(self, n):
+            raise Unknown("starred")
+
+        def e_Compare(self, n):
+            if len(n.ops) == 1 and isinstance(n.ops[0], (ast.In, ast.NotIn)):
+                left, right = self.ev(n.left), self.ev(n.comparators[0])
+                if isinstance(right, _Opq):
+                    raise Unknown("membership in %r" % right)
+                if isinstance(right, str):
+                    r = isinstance(left, str) and left in right
+                elif isinstance(right, dict):
+                    r = any(left == k for k in right)
+                else:
+                    r = any(left == x for x in right)
+                return r if isinstance(n.ops[0], ast.In) else not r
+            try:
+                return Ev0.e_Compare(self, n)
+            except TypeError:
+                raise Unknown("comparison %s" % unparse(n))
+
+        def truth(self, v):
+            if isinstance(v, _Opq) and "__bool__" not in v.attrs:
+                raise Unknown("truth value of %r" % v)
+            return Ev0.truth(self, v)
+
+        # ---- statements
+        def stmt(self, s):
+            if isinstance(s, ast.For):
+                it = self.ev(s.iter)
+                if isinstance(it, dict):
+                    it = list(it.keys())
+                if not isinstance(it, (list, tuple, str)):
+                    raise Unknown("loop over %r" % (it,))
+                for x in it:
+                    self.assign(s.target, x)
+                    self.block(s.body)
+                return
+            if isinstance(s, ast.Try):
+                try:
+                    self.block(s.body)
+                except Raised:
+                    if not s.handlers:
+                        raise
+                    self.block(s.handlers[0].body)
+                else:
+                    self.block(s.orelse)
+                self.block(s.finalbody)
+                return
+            if isinstance(s, ast.AnnAssign):
+                if s.value is not None:
+                    self.assign(s.target, self.ev(s.value))
+                return
+            if isinstance(s, ast.Assert):
+                return
+            if isinstance(s, (ast.Import, ast.ImportFrom, ast.Global, ast.Nonlocal, ast.FunctionDef, ast.ClassDef)):
+                return
+            return Ev0.stmt(self, s)
+
+        def assign(self, t, v):
+            if isinstance(t, ast.Subscript):
+                b = self.ev(t.value)
+                if isinstance(b, (list, dict)):
+                    b[self.ev(t.slice)] = v
+                    return
+                if isinstance(b, _Opq):
+                    return
+            if isinstance(t, (ast.Tuple, ast.List)) and isinstance(v, _Opq):
+                for i, e in enumerate(t.elts):
+                    self.assign(e, _Opq("%s[%d]" % (v.name, i)))
+                return
+            if isinstance(t, ast.Attribute):
+                b = self.ev(t.value)
+                if isinstance(b, _Opq):
+                    return
+            return Ev0.assign(self, t, v)
+
+    def make(env, owner=None, depth=0):
+        e = Ev(env, class_attr, hook, attr_hook)
+        e.owner = owner
+        e.depth = depth
+        return e
+
+    def call_method(cname, fn, selfobj, n, ev, bound=True):
+        if ev.depth >= inline_depth:
+            raise Unknown("method inlining too deep at %s" % unparse(n))
+        params = [a.arg for a in fn.args.args]
+        env = {}
+        for p, d in zip(params[len(params) - len(fn.args.defaults):], fn.args.defaults):
+            env[p] = ev.ev(d)
+        is_static = any(isinstance(d, ast.Name) and d.id == "staticmethod" for d in fn.decorator_list)
+        is_cls = any(isinstance(d, ast.Name) and d.id == "classmethod" for d in fn.decorator_list)
+        pos = [ev.ev(a) for a in n.args]
+        if not is_static and bound:
+            pos = [(_Opq(cname) if is_cls else selfobj)] + pos
+        for p, a in zip(params, pos):
+            env[p] = a
+        for k in n.keywords:
+            if k.arg:
+                env[k.arg] = ev.ev(k.value)
+        sub = make(env, cname, ev.depth + 1)
+        return sub.run(fn.body)
+
+    def isinst(x, T):
+        ts = T if isinstance(T, (list, tuple)) else [T]
+        names = [t.name.split(".")[-1] if isinstance(t, Obj) else str(t) for t in ts]
+        if isinstance(x, bool):
+            return any(nm in ("bool", "int") for nm in names)
+        if isinstance(x, str):
+            return any(nm in ("str", "string_types", "basestring") for nm in names)
+        if isinstance(x, int):
+            return any(nm in ("int", "Integral", "Number", "Real") for nm in names)
+        if isinstance(x, float):
+            return any(nm in ("float", "Number", "Real") for nm in names)
+        if x is None:
+            return False
+        if isinstance(x, (list, tuple, dict)):
+            return any(nm in (type(x).__name__, "Iterable", "Sequence") for nm in names)
+        if isinstance(x, Obj) and x.cls is not None:
+            return any(nm in bases(x.cls) for nm in names)
+        raise Unknown("isinstance of %r" % (x,))
+
+    def hook(name, n, ev):
+        if user_hook is not None:
+            r = user_hook(name, n, ev)
+            if r is not NotImplemented:
+                return r
+        if name == "isinstance" and len(n.args) == 2:
+            return isinst(ev.ev(n.args[0]), ev.ev(n.args[1]))
+        if name == "getattr" and len(n.args) >= 2:
+            o, a = ev.ev(n.args[0]), ev.ev(n.args[1])
+            if isinstance(o, Obj) and isinstance(a, str):
+                if a in o.attrs:
+                    return o.attrs[a]
+                if len(n.args) > 2:
+                    if isinstance(o, _Opq):
+                        raise Unknown("getattr with default on %r" % o)
+                    return ev.ev(n.args[2])
+                if isinstance(o, _Opq):
+                    return _Opq(o.name + "." + a)
+            raise Unknown("getattr %s" % unparse(n))
+        if name == "setattr" and len(n.args) == 3:
+            o, a, v = ev.ev(n.args[0]), ev.ev(n.args[1]), ev.ev(n.args[2])
+            if isinstance(o, Obj) and isinstance(a, str):
+                o.attrs[a] = v
+                return None
+            raise Unknown("setattr %s" % unparse(n))
+        if name == "hasattr" and len(n.args) == 2:
+            o, a = ev.ev(n.args[0]), ev.ev(n.args[1])
+            if isinstance(o, Obj) and not isinstance(o, _Opq):
+                return a in o.attrs
+            raise Unknown("hasattr %s" % unparse(n))
+        if name == "type" and len(n.args) == 1:
+            o = ev.ev(n.args[0])
+            if isinstance(o, Obj) and o.cls is not None:
+                return _Opq(o.cls)
+        if name in ("dict", "list", "tuple", "set", "OrderedDict", "OrderedSet") and not n.args and not n.keywords:
+            return {} if name in ("dict", "OrderedDict") else []
+        if name in ("list", "tuple", "sorted") and len(n.args) == 1 and not n.keywords:
+            v = ev.ev(n.args[0])
+            if isinstance(v, (list, tuple)):
+                return sorted(v) if name == "sorted" else list(v)
+        if isinstance(n.func, ast.Attribute):
+            meth = n.func.attr
+            fv = n.func.value
+            # super().m(...) / super(C, self).m(...)
+            if isinstance(fv, ast.Call) and isinstance(fv.func, ast.Name) and fv.func.id == "super":
+                selfobj = ev.env.get("self")
+                start = ev.owner or (selfobj.cls if isinstance(selfobj, Obj) else None)
+                if start is not None:
+                    c, fn = find_method(start, meth, skip_first=True)
+                    if fn is not None:
+                        return call_method(c, fn, selfobj, n, ev)
+                log.append(("super." + meth, [ev.ev(a) for a in n.args], {k.arg: ev.ev(k.value) for k in n.keywords if k.arg}))
+                return None
+            base = ev.ev(fv)
+            if isinstance(base, dict):
+                a = [ev.ev(x) for x in n.args]
+                if meth == "get":
+                    return base.get(a[0], a[1] if len(a) > 1 else None)
+                if meth in ("keys", "values"):
+                    return list(getattr(base, meth)())
+                if meth == "items":
+                    return [list(kv) for kv in base.items()]
+                if meth in ("pop", "setdefault", "update"):
+                    return getattr(base, meth)(*a)
+            if isinstance(base, list):
+                a = [ev.ev(x) for x in n.args]
+                if meth in ("append", "extend", "insert", "remove", "index", "count", "pop"):
+                    try:
+                        return getattr(base, meth)(*a)
+                    except (ValueError, IndexError):
+                        raise Raised(n)
+            if isinstance(base, str) and meth in ("join",):
+                return base.join(ev.ev(n.args[0]))
+            if isinstance(base, Obj) and meth in base.attrs and callable(base.attrs[meth]):
+                return base.attrs[meth](*[ev.ev(x) for x in n.args], **{k.arg: ev.ev(k.value) for k in n.keywords if k.arg})
+            # method of a class of this module: through an instance (self), through cls, or through the class name
+            cname, bound = None, True
+            if isinstance(base, Obj) and not isinstance(base, _Opq) and base.cls is not None:
+                cname = base.cls
+            elif isinstance(base, _Opq) and base.name in classes:
+                cname = base.name
+                selfless = True
+            if cname is not None:
+                c, fn = find_method(cname, meth)
+                if fn is not None and not any(isinstance(d, ast.Name) and d.id == "property" for d in fn.decorator_list):
+                    if isinstance(base, _Opq):
+                        is_static = any(isinstance(d, ast.Name) and d.id == "staticmethod" for d in fn.decorator_list)
+                        is_cls = any(isinstance(d, ast.Name) and d.id == "classmethod" for d in fn.decorator_list)
+                        if not (is_static or is_cls):
+                            bound = False           # Class.method(obj, ...) : self is passed explicitly
+                    return call_method(c, fn, base, n, ev, bound=bound)
+        r = hook0(name, n, ev)
+        if r is not NotImplemented:
+            return r
+        # not interpreted: remember the call, the result is an opaque object
+        try:
+            a = [ev.ev(x) for x in n.args if not isinstance(x, ast.Starred)]
+            kw = {k.arg: ev.ev(k.value) for k in n.keywords if k.arg}
+        except Raised:
+            raise
+        log.append((name, a, kw))
+        return _Opq("%s(...)#%d" % (name, len(log)))
+    return make, log
+
+
+def _run_concrete(what, thunk):
+    try:
+        return thunk()
+    except Raised as r:
+        return ("raises", unparse(r.node).split("\n")[0][:80])
+    except Unknown as e:
+        raise ExtractError("%s not evaluable: %s" % (what, e))
+
+
+def _nm(v):
+    """printable identity of an evaluation result"""
+    if isinstance(v, Obj):
+        return v.name
+    if isinstance(v, (list, tuple)):
+        return tuple(_nm(x) for x in v)
+    return v
+
+
+# ====================================================================================================================
 def run(repo, chk):
     rs = repo.func(CORE, "WNTRSimulator.run_sim")
     chk.fn(rs)
@@ -32,47 +620,144 @@ def run(repo, chk):
     if len(heads) != 1:
         raise AnchorError("run_sim: expected one while loop")
     head = heads[0]
+    rs_defs = _name_defs(rs)
     post = g.calling("_run_postsolve_controls")
     store = g.calling("store_results_in_network")
     saves = g.calling("save_results")
     solves = g.calling("_solver_helper")
     upd = [u for u in g.calling("update_network_previous_values") if u in g.reachable(head)]
-    adv = g.nodes_where(lambda node, d: isinstance(node, ast.AugAssign) and unparse(node.target) == "self._wn.sim_time" and isinstance(node.op, ast.Add))
-    gt = g.nodes_where(lambda node, d: d["kind"] == "test" and "changes_made" in unparse(node) and "'graph'" in unparse(node))
-    if not (post and store and saves and solves and upd and adv and len(gt) == 1):
+
+    def is_time_advance(node, d):
+        # self._wn.sim_time += dt   or   self._wn.sim_time = self._wn.sim_time + dt
+        if isinstance(node, ast.AugAssign) and isinstance(node.op, ast.Add) and isinstance(node.target, ast.Attribute) and node.target.attr == "sim_time":
+            return True
+        if isinstance(node, ast.Assign) and len(node.targets) == 1 and isinstance(node.targets[0], ast.Attribute) and node.targets[0].attr == "sim_time" \
+                and isinstance(node.value, ast.BinOp) and isinstance(node.value.op, ast.Add):
+            tt = unparse(node.targets[0])
+            return tt in (unparse(node.value.left), unparse(node.value.right))
+        return False
+    adv = g.nodes_where(is_time_advance)
+
+    # the change test: the branch decided by change_tracker.changes_made(...); the call may be evaluated in the test itself or hoisted into
+    # a temporary with a single definition (then T_eval is the statement that evaluates it, T the branch)
+    def changes_call(expr):
+        return [c for c in ast.walk(expr) if isinstance(c, ast.Call) and last_attr(c) == "changes_made"]
+    cands = []
+    for t in g.nodes_where(lambda node, d: d["kind"] == "test"):
+        cc = changes_call(_expand(rs, g.node_ast(t), _defs=rs_defs))
+        if cc:
+            cands.append((t, cc[0]))
+    if len(cands) > 1:
+        cands = [c for c in cands if any(const(a) == "graph" for a in list(c[1].args) + [k.value for k in c[1].keywords])] or cands
+    if not (post and store and saves and solves and upd and adv and len(cands) == 1):
         raise AnchorError("run_sim anchors missing")
-    T = gt[0]
+    T, T_call = cands[0]
+    T_eval = T
+    if not changes_call(g.node_ast(T)):
+        ev_nodes = g.nodes_where(lambda node, d: d["kind"] == "stmt" and isinstance(node, (ast.Assign, ast.AnnAssign)) and bool(changes_call(node)))
+        if len(ev_nodes) != 1:
+            raise AnchorError("run_sim: evaluation of the change test not found")
+        T_eval = ev_nodes[0]
+    # which outcome of the branch means "something changed"
+    _a, T_pol = _atom(_expand(rs, g.node_ast(T), _defs=rs_defs))
+    if isinstance(_a, ast.BoolOp) or not changes_call(_a):
+        cj = [(a, p) for a, p in _conjuncts(_expand(rs, g.node_ast(T), _defs=rs_defs)) if changes_call(a)]
+        if len(cj) != 1:
+            raise ExtractError("run_sim: change test is not a plain truth test of changes_made(): %s" % unparse(g.node_ast(T)))
+        _a, T_pol = cj[0]
+    if isinstance(_a, ast.Compare):
+        # len(changes) > 0 style tests are not produced by changes_made(); keep to the boolean protocol
+        raise ExtractError("run_sim: change test compares the result of changes_made(): %s" % unparse(g.node_ast(T)))
 
     # ---------------------------------------------------------------- R-C05-1 re-solve discipline
     for tgt_name, tgts in (("save_results", saves), ("update_network_previous_values", upd), ("the time advance", adv)):
         w = g.can_reach_avoiding(post[0], tgts, [T], drop_back=True)
         chk.expect(w is None, "R-C05-1", "%s is reached only after the post-solve change test" % tgt_name, loc(rs), found=g.path_text(w) if w else None)
-        st = g.succ_on(T, True)
+        st = g.succ_on(T, T_pol)
         w = g.can_reach_avoiding(st[0], tgts, [], drop_back=True) if st else None
         chk.expect(bool(st) and w is None, "R-C05-1", "when a post-solve control changed something, %s is not reached in this iteration" % tgt_name, loc(rs, g.node_ast(T)),
                    "no step may be accepted while a post-solve control still wants to change a link", found=g.path_text(w) if w else None)
-    st = g.succ_on(T, True)
+    st = g.succ_on(T, T_pol)
     umc = g.calling("update_model_for_controls")
-    tinc = g.nodes_where(lambda node, d: isinstance(node, ast.AugAssign) and unparse(node.target) == "trial")
-    res_true = g.nodes_where(lambda node, d: isinstance(node, ast.Assign) and unparse(node.targets[0]) == "resolve" and const(node.value) is True)
+
+    # the trial counter: a local that every re-solve path increments and that some test compares (the bound)
+    def incremented(node):
+        if isinstance(node, ast.AugAssign) and isinstance(node.op, ast.Add) and isinstance(node.target, ast.Name):
+            return node.target.id
+        if isinstance(node, ast.Assign) and len(node.targets) == 1 and isinstance(node.targets[0], ast.Name) and isinstance(node.value, ast.BinOp) \
+                and isinstance(node.value.op, ast.Add) and node.targets[0].id in (unparse(node.value.left), unparse(node.value.right)):
+            return node.targets[0].id
+        return None
+    counters = {}
+    for i in g.nodes_where(lambda node, d: d["kind"] == "stmt" and incremented(node) is not None):
+        counters.setdefault(incremented(g.node_ast(i)), []).append(i)
+    compared = set()
+    for t in g.nodes_where(lambda node, d: d["kind"] == "test"):
+        for c in ast.walk(g.node_ast(t)):
+            if isinstance(c, ast.Compare):
+                compared |= {x.id for x in ast.walk(c) if isinstance(x, ast.Name)}
+    tinc, tinc_name = [], None
+    for v, nodes in sorted(counters.items()):
+        if v in compared and st and g.can_reach_avoiding(st[0], [head], nodes, drop_back=False) is None:
+            tinc, tinc_name = nodes, v
+            break
+    if not tinc:
+        # report against the counter candidates that exist (so that the witness path is shown)
+        for v, nodes in sorted(counters.items()):
+            if v in compared:
+                tinc, tinc_name = nodes, v
+
+    # the flag that suppresses the pre-solve phase (next time step + pre-solve controls) of the next iteration: the local whose truth
+    # value guards the pre-solve call; on the re-solve path it must be given the value that skips that phase
+    pre = g.calling("_compute_next_timestep_and_run_presolve_controls_and_rules")
+    flag = None
+    if pre:
+        s_ = g.node_ast(pre[0])
+        child, p_ = s_, parent(s_)
+        while p_ is not None and p_ is not rs:
+            if isinstance(p_, ast.If):
+                for a, pol in _conjuncts(p_.test, True if child in p_.body else False):
+                    if isinstance(a, ast.Name) and rs_defs.get(a.id) is not None:
+                        flag = (a.id, not pol)          # the value that SKIPS the pre-solve phase
+            child, p_ = p_, parent(p_)
+    if flag is None:
+        raise AnchorError("run_sim: the flag guarding the pre-solve phase not found")
+    res_true = g.nodes_where(lambda node, d: isinstance(node, ast.Assign) and any(isinstance(t_, ast.Name) and t_.id == flag[0] for t_ in node.targets)
+                             and isinstance(const(node.value), bool) and const(node.value) is flag[1])
     for nm, via in (("update_model_for_controls", umc), ("trial += 1", tinc), ("resolve = True", res_true)):
         w = g.can_reach_avoiding(st[0], [head], via, drop_back=False) if st else None
         chk.expect(w is None and bool(via), "R-C05-1", "the re-solve path passes `%s` before solving again" % nm, loc(rs, g.node_ast(T)), found=g.path_text(w) if w else None)
-    chk.expect(re.search(r"ref_point\s*=\s*'graph'", unparse(g.node_ast(T))) is not None and "self._change_tracker" in unparse(g.node_ast(T)), "R-C05-1",
-               "the change test asks the change tracker for changes since the last solve (reference point 'graph')", loc(rs, g.node_ast(T)))
+    ref = [a for a in T_call.args[:1]] + [k.value for k in T_call.keywords if k.arg == "ref_point"]
+    recv = T_call.func.value if isinstance(T_call.func, ast.Attribute) else None
+    chk.expect(len(ref) == 1 and const(ref[0]) == "graph" and recv is not None and unparse(recv) == "self._change_tracker", "R-C05-1",
+               "the change test asks the change tracker for changes since the last solve (reference point 'graph')", loc(rs, g.node_ast(T)), found=unparse(T_call))
     w = g.can_reach_avoiding(solves[0], post, store, drop_back=True)
     chk.expect(w is None, "R-C05-1", "post-solve controls are evaluated on the solution stored in the network", loc(rs), found=g.path_text(w) if w else None)
-    w = g.can_reach_avoiding(store[0], [T], post, drop_back=True)
-    chk.expect(w is None, "R-C05-1", "the change test follows the post-solve controls", loc(rs), found=g.path_text(w) if w else None)
+    w = g.can_reach_avoiding(store[0], [T_eval], post, drop_back=True)
+    w2 = g.can_reach_avoiding(T_eval, post, [T], drop_back=True) if T_eval != T else None
+    chk.expect(w is None and w2 is None, "R-C05-1", "the change test follows the post-solve controls", loc(rs), found=g.path_text(w or w2) if (w or w2) else None)
     # the 'graph' reference point is reset when the graph is updated (so that T means: changed since the last solve)
     uig = repo.func(CORE, "WNTRSimulator._update_internal_graph")
-    chk.expect(any(last_attr(c) == "reset_reference_point" and "'graph'" in unparse(c) for c in calls(uig)), "R-C05-1", "_update_internal_graph consumes and resets the 'graph' reference point", loc(uig))
+    resets = []
+    for o in _live(_sx().run(uig)):
+        resets.append(any(cal.endswith(".reset_reference_point") and cal.startswith("self._change_tracker") and ("'graph'" in a or kw.get("key") == "'graph'")
+                          for cal, a, kw, lp, i in _call_events(o) if lp is None))
+    chk.expect(bool(resets) and all(resets), "R-C05-1", "_update_internal_graph consumes and resets the 'graph' reference point", loc(uig))
     w = g.can_reach_avoiding(st[0], [head], g.calling("_update_internal_graph"), drop_back=False) if st else None
     chk.expect(w is None, "R-C05-1", "the re-solve path resets the reference point (via _update_internal_graph) before solving again", loc(rs), found=g.path_text(w) if w else None)
     ps = repo.func(CORE, "WNTRSimulator._run_postsolve_controls")
     chk.fn(ps)
-    src = unparse(ps)
-    chk.expect("self._postsolve_controls.check()" in src and "run_control_action()" in src, "R-C05-1", "_run_postsolve_controls runs every post-solve control whose condition holds", loc(ps))
+    okps = []
+    for o in _live(_sx().run(ps)):
+        lv = _loop_vars(o)
+        hit = False
+        for cal, a, kw, lp, i in _call_events(o):
+            if cal.endswith(".run_control_action") and lp is not None and "self._postsolve_controls.check()" in lp and lp in lv:
+                tv = lv[lp]
+                recv_ = cal[:-len(".run_control_action")]
+                hit = hit or (len(tv) >= 2 and recv_ == tv[0]) or (len(tv) == 1 and recv_ == tv[0] + "[0]")
+        okps.append(hit)
+    chk.expect(bool(okps) and all(okps), "R-C05-1", "_run_postsolve_controls runs every post-solve control whose condition holds", loc(ps))
     chk.floor("R-C05-1", 14)
 
     # ---------------------------------------------------------------- R-C05-2 action plumbing
@@ -80,48 +765,91 @@ def run(repo, chk):
     chk.fn(cai)
     mapping = {}
     for attr in ("status", "setting", "leak_status", "base_speed", "elevation"):
-        ev = Evaluator({"self": Obj("self", {}), "target_obj": Obj("t", {}), "attribute": attr, "value": 1}, None,
-                       lambda name, n, ev_: (True if name == "hasattr" else (None if name.startswith("super") or name.endswith("__init__") else NotImplemented)))
-        try:
-            ev.run([s for s in cai.body if not (isinstance(s, ast.Expr) and isinstance(s.value, ast.Call) and "super" in unparse(s.value))])
-            mapping[attr] = ev.env["self"].attrs.get("_private_attribute")
-        except Unknown as e:
-            raise ExtractError("ControlAction.__init__ not evaluable: %s" % e)
+        make, _log = _concrete(repo, CTRL, lambda name, n, ev: True if name == "hasattr" else NotImplemented)
+        me = Obj("self", {}, cls="ControlAction")
+        ev = make({"self": me, "target_obj": Obj("t", {}), "attribute": attr, "value": 1}, owner="ControlAction")
+        body = [s for s in cai.body if not (isinstance(s, ast.Expr) and isinstance(s.value, ast.Call) and "super" in unparse(s.value))]
+        r = _run_concrete("ControlAction.__init__", lambda: ev.run(body))
+        mapping[attr] = _nm(me.attrs.get("_private_attribute")) if not (isinstance(r, tuple) and r and r[0] == "raises") else r
     want = {"status": "_user_status", "setting": "_setting", "leak_status": "_leak_status"}
     for k, v in want.items():
         chk.expect(mapping.get(k) == v, "R-C05-2", "ControlAction(%s) writes the run-time field %s" % (k, v), loc(cai),
                    "a control must act on the field that the status property / constraint builders read, never on the definition (initial_*) fields", expected=v, found=mapping.get(k))
     chk.sample({"rule": "R-C05-2", "ControlAction private attribute map": mapping})
+
+    def writes_then_notifies(fn, attr_field):
+        """every normally ending path: exactly one setattr(self._target_obj, self.<attr_field>, self._value), later self.notify(); the three
+        fields are not overwritten on the way"""
+        outs = _live(_sx().run(fn))
+        res, found = [], []
+        for o in outs:
+            ce = _call_events(o)
+            sets = [(a, i) for cal, a, kw, lp, i in ce if cal == "setattr"]
+            found.append([("setattr", a) for a, i in sets] + [cal for cal, a, kw, lp, i in ce if cal == "self.notify"])
+            clobber = [e for e in o.events if e[0] == "store" and e[1] in ("self._target_obj", "self." + attr_field, "self._value")]
+            okp = len(sets) == 1 and sets[0][0] == ["self._target_obj", "self." + attr_field, "self._value"] and not clobber and \
+                any(cal == "self.notify" and lp is None and i > sets[0][1] for cal, a, kw, lp, i in ce)
+            res.append(okp)
+        return bool(res) and all(res), found
+
+    def returns(fn):
+        outs = _live(_sx().run(fn))
+        return sorted({_t(o.ret) for o in outs})
     rca = repo.func(CTRL, "ControlAction.run_control_action")
-    s_ = [unparse(x) for x in rca.body if not isinstance(x, ast.Expr) or not isinstance(x.value, ast.Constant)]
-    chk.expect(s_ == ["setattr(self._target_obj, self._private_attribute, self._value)", "self.notify()"], "R-C05-2", "ControlAction.run_control_action = setattr(target, private attribute, value) then notify()", loc(rca), found=s_)
+    okr, found = writes_then_notifies(rca, "_private_attribute")
+    chk.expect(okr, "R-C05-2", "ControlAction.run_control_action = setattr(target, private attribute, value) then notify()", loc(rca), found=found)
     tg = repo.func(CTRL, "ControlAction.target")
-    r = [x for x in walk(tg) if isinstance(x, ast.Return)]
-    chk.expect(bool(r) and unparse(r[0].value).replace(" ", "") in ("(self._target_obj,self._attribute)", "self._target_obj,self._attribute"), "R-C05-2", "ControlAction.target() reports the PUBLIC attribute", loc(tg), found=unparse(r[0].value) if r else None)
+    r = returns(tg)
+    chk.expect(r == ["(self._target_obj, self._attribute)"], "R-C05-2", "ControlAction.target() reports the PUBLIC attribute", loc(tg), found=r)
     ica = repo.func(CTRL, "_InternalControlAction.run_control_action")
-    chk.expect("setattr(self._target_obj, self._internal_attr, self._value)" in unparse(ica) and "self.notify()" in unparse(ica), "R-C05-2", "_InternalControlAction writes the internal attribute and notifies", loc(ica))
+    okr, found = writes_then_notifies(ica, "_internal_attr")
+    chk.expect(okr, "R-C05-2", "_InternalControlAction writes the internal attribute and notifies", loc(ica), found=found)
     itg = repo.func(CTRL, "_InternalControlAction.target")
-    r = [x for x in walk(itg) if isinstance(x, ast.Return)]
-    chk.expect(bool(r) and "self._property_attr" in unparse(r[0].value), "R-C05-2", "_InternalControlAction.target() reports the public property to compare", loc(itg))
+    r = returns(itg)
+    chk.expect(r == ["(self._target_obj, self._property_attr)"], "R-C05-2", "_InternalControlAction.target() reports the public property to compare", loc(itg), found=r)
+
+    # the change tracker: for every reference point, target in `changed` <=> current public value differs from the value at the reference point
     upf = repo.func(CTRL, "ControlChangeTracker.update")
-    su = unparse(upf)
-    chk.expect("obj_attr = subject.target()" in su and "getattr(*obj_attr)" in su and ".add(obj_attr)" in su and ".discard(obj_attr)" in su, "R-C05-2",
-               "the change tracker compares the current PUBLIC value with the value at the reference point (a change back is not a change)", loc(upf))
+    okt, seen = _tracker_update_facts(upf)
+    chk.expect(okt, "R-C05-2", "the change tracker compares the current PUBLIC value with the value at the reference point (a change back is not a change)", loc(upf), found=seen)
     notify = repo.func(CTRL, "Subject.notify")
-    chk.expect("o.update(self)" in unparse(notify) or ".update(self)" in unparse(notify), "R-C05-2", "notify() informs every subscribed observer", loc(notify))
-    # run_control_action of a control executes the then-actions when the condition holds
+    okn = []
+    for o in _live(_sx().run(notify)):
+        lv = _loop_vars(o)
+        okn.append(any(cal.endswith(".update") and a == ["self"] and lp == "self._observers" and lv.get(lp) == [cal[:-len(".update")]] for cal, a, kw, lp, i in _call_events(o)))
+    chk.expect(bool(okn) and all(okn), "R-C05-2", "notify() informs every subscribed observer", loc(notify))
+
+    # a control is due when its condition evaluates true; running it runs the then-actions
     icar = repo.func(CTRL, "Rule.is_control_action_required")
-    chk.expect("self._condition.evaluate()" in unparse(icar), "R-C05-2", "a control is due exactly when its condition evaluates true", loc(icar))
+    due = {}
+    for val in (True, False):
+        ex = _sx(decide=lambda txt, last, val=val: val if txt == "self._condition.evaluate()" else None)
+        rows = []
+        for o in _live(ex.run(icar)):
+            which = [e[2] for e in o.events if e[0] == "store" and e[1] == "self._which"]
+            ret = o.ret
+            rows.append((ret[0] if isinstance(ret, (tuple, list)) and ret else ret, which[-1] if which else None,
+                         _t(ret[1]) if isinstance(ret, (tuple, list)) and len(ret) > 1 else None))
+        due[val] = rows
+    okd = bool(due[True]) and all(r[0] is True and r[1] == "then" and r[2] == "self._condition.backtrack" for r in due[True]) and \
+        bool(due[False]) and all(r[1] != "then" for r in due[False]) and any(r[0] is False for r in due[False])
+    chk.expect(okd, "R-C05-2", "a control is due exactly when its condition evaluates true", loc(icar),
+               found={k: [(str(a), b, c) for a, b, c in v] for k, v in due.items()})
     rrca = repo.func(CTRL, "Rule.run_control_action")
-    chk.expect("self._then_actions" in unparse(rrca) and "run_control_action()" in unparse(rrca), "R-C05-2", "running a control runs its then-actions", loc(rrca))
+    okw = []
+    for o in _live(_sx(attrs={"self._which": "then"}).run(rrca)):
+        lv = _loop_vars(o)
+        ce = [(cal, lp) for cal, a, kw, lp, i in _call_events(o) if cal.endswith(".run_control_action")]
+        okw.append(bool(ce) and all(lp == "self._then_actions" and lv.get(lp) == [cal[:-len(".run_control_action")]] for cal, lp in ce))
+    chk.expect(bool(okw) and all(okw), "R-C05-2", "running a control runs its then-actions", loc(rrca))
     chk.floor("R-C05-2", 11)
 
     # ---------------------------------------------------------------- R-C05-3 conditions
     ve = repo.func(CTRL, "ValueCondition.evaluate")
     chk.fn(ve)
-    sv = unparse(ve)
-    okv = "getattr(self._source_obj, self._source_attr)" in sv and "self._threshold" in sv and "self._relation" in sv and re.search(r"relation\(np\.round\(cur_value, 10\), np\.round\(thresh_value, 10\)\)", sv) is not None
-    chk.expect(okv, "R-C05-3", "ValueCondition.evaluate applies the stored relation to (current attribute value, threshold)", loc(ve))
+    rets = sorted({_t(o.ret) for o in _live(_sx(decide=lambda txt, last: False if last == "isnan" else None).run(ve))})
+    okv = len(rets) == 1 and _is_relation_of_value_and_threshold(rets[0])
+    chk.expect(okv, "R-C05-3", "ValueCondition.evaluate applies the stored relation to (current attribute value, threshold)", loc(ve), found=rets)
     # Comparison members carry the matching numpy function
     cmp_cls = repo.cls(CTRL, "Comparison")
     tbl = {}
@@ -131,39 +859,45 @@ def run(repo, chk):
     wantc = {"gt": "np.greater", "ge": "np.greater_equal", "lt": "np.less", "le": "np.less_equal", "eq": "np.equal", "ne": "np.not_equal"}
     chk.expect(tbl == wantc, "R-C05-3", "Comparison members carry the matching comparison function", loc(CTRL, cmp_cls), expected=wantc, found=tbl)
     pf = repo.func(CTRL, "Comparison.parse")
-    pairs = {}
-    for n in walk(pf):
-        if isinstance(n, ast.If) and isinstance(n.test, ast.Compare) and isinstance(n.test.ops[0], ast.In):
-            r = [x for x in n.body if isinstance(x, ast.Return)]
-            if r:
-                lst = n.test.comparators[0]
-                first = unparse(lst.elts[0]) if isinstance(lst, (ast.List, ast.Tuple, ast.Set)) and lst.elts else ""
-                pairs[first] = unparse(r[0].value)
+
+    def parse(x):
+        make, _log = _concrete(repo, CTRL)
+        ev = make({"cls": _Opq("cls"), "func": x}, owner="Comparison")
+        return _nm(_run_concrete("Comparison.parse", lambda: ev.run(pf.body)))
     wantp = {"np.equal": "cls.eq", "np.not_equal": "cls.ne", "np.greater": "cls.gt", "np.less": "cls.lt", "np.greater_equal": "cls.ge", "np.less_equal": "cls.le"}
+    pairs = {k: parse(_Opq(k)) for k in wantp}
     chk.expect(all(pairs.get(k) == v for k, v in wantp.items()), "R-C05-3", "Comparison.parse maps each function / keyword list to its own member", loc(pf), expected=wantp, found=pairs)
     # keyword lists: above/after -> gt ; below/before -> lt
-    srcp = unparse(pf)
     for kw, member in (("'above'", "cls.gt"), ("'below'", "cls.lt"), ("'>='", "cls.ge"), ("'<='", "cls.le")):
-        m = re.search(r"if func in \[([^\]]*%s[^\]]*)\]:\s*return (cls\.\w+)" % re.escape(kw), srcp)
-        chk.expect(bool(m) and m.group(2) == member, "R-C05-3", "Comparison.parse: keyword %s means %s" % (kw, member), loc(pf), found=m.group(2) if m else None)
+        got = parse(kw.strip("'"))
+        chk.expect(got == member, "R-C05-3", "Comparison.parse: keyword %s means %s" % (kw, member), loc(pf), found=got)
+
     rcl = repo.func(IO, "_read_control_line")
     chk.fn(rcl)
-    opmap = {}
-    for n in walk(rcl):
-        if isinstance(n, ast.If) and isinstance(n.test, ast.Compare) and unparse(n.test.left) == "current[6]":
-            asg = [x for x in n.body if isinstance(x, ast.Assign) and dotted(x.targets[0]) == "oper"]
-            if asg:
-                opmap[const(n.test.comparators[0])] = unparse(asg[0].value)
+    opmap, attrs = {}, []
+    for word in ("ABOVE", "BELOW"):
+        for ntype, cls_ in (("Junction", "Junction"), ("Tank", "Tank")):
+            got = _read_conditional_control(repo, rcl, word, ntype)
+            opmap.setdefault(word, set()).add(got["oper"])
+            attrs.append((got["source"], got["attr"]))
+    opmap = {k: (sorted(v)[0] if len(v) == 1 else sorted(v)) for k, v in opmap.items()}
     chk.expect(opmap == {"ABOVE": "np.greater", "BELOW": "np.less"}, "R-C05-3", "INP simple controls: ABOVE = greater than, BELOW = less than", loc(rcl), found=opmap)
-    cc = [c for c in calls(rcl) if call_name(c) == "Control._conditional_control"]
-    attrs = sorted((unparse(c.args[0]), const(c.args[1])) for c in cc if len(c.args) >= 2)
+    attrs = sorted(set(attrs))
     chk.expect(attrs == [("node", "level"), ("node", "pressure")], "R-C05-3", "INP simple controls compare junction pressure / tank level of the named node", loc(rcl), found=attrs)
     ccf = repo.func(CTRL, "Control._conditional_control")
-    chk.expect("ValueCondition(source_obj=source_obj, source_attr=source_attr, relation=operation, threshold=threshold)" in unparse(ccf).replace("\n", " ").replace("  ", " ") or
-               re.search(r"ValueCondition\(source_obj=source_obj,\s*source_attr=source_attr,\s*relation=operation,\s*threshold=threshold\)", unparse(ccf)) is not None,
-               "R-C05-3", "Control._conditional_control builds ValueCondition(obj, attr, operation, threshold) with the given action", loc(ccf))
+    okc, seen = _conditional_control_facts(repo, ccf)
+    chk.expect(okc, "R-C05-3", "Control._conditional_control builds ValueCondition(obj, attr, operation, threshold) with the given action", loc(ccf), found=seen)
     vn = repo.func(CTRL, "ValueCondition.__new__")
-    chk.expect("isinstance(source_obj, Tank)" in unparse(vn) and "TankLevelCondition" in unparse(vn), "R-C05-3", "a ValueCondition on a tank's level/pressure/head is a TankLevelCondition (partial steps)", loc(vn))
+    newtab = {}
+    for scls in ("Tank", "Junction", "Reservoir"):
+        for sattr in ("level", "pressure", "head", "demand"):
+            make, _log = _concrete(repo, CTRL, lambda name, n, ev: (Obj("instance", {}, cls=_nm(ev.ev(n.args[0]))) if name == "object.__new__" and len(n.args) == 1 else NotImplemented))
+            ev = make({"cls": _Opq("ValueCondition"), "source_obj": Obj("src", {}, cls=scls), "source_attr": sattr, "relation": _Opq("rel"), "threshold": 1.0}, owner="ValueCondition")
+            r = _run_concrete("ValueCondition.__new__", lambda: ev.run(vn.body))
+            newtab[(scls, sattr)] = r.cls if isinstance(r, Obj) else _nm(r)
+    wantn = {k: ("TankLevelCondition" if k[0] == "Tank" and k[1] in ("level", "pressure", "head") else "ValueCondition") for k in newtab}
+    chk.expect(newtab == wantn, "R-C05-3", "a ValueCondition on a tank's level/pressure/head is a TankLevelCondition (partial steps)", loc(vn),
+               found={"%s.%s" % k: v for k, v in newtab.items() if wantn[k] != v})
     chk.floor("R-C05-3", 10)
 
     # ---------------------------------------------------------------- R-C05-5 the solve phase of a simple control follows its CURRENT condition
@@ -175,45 +909,93 @@ def run(repo, chk):
     for nm, fn in list(inherited.items()) + list(own.items()):
         if any(isinstance(a, ast.Attribute) and isinstance(a.ctx, ast.Store) and a.attr == "_condition" and unparse(a.value) == "self" for a in walk(fn)):
             setters.append(nm)
+    cond_classes = ["TankLevelCondition", "TimeOfDayCondition", "SimTimeCondition", "ValueCondition", "RelativeCondition", "OrCondition", "AndCondition", "FunctionCondition"]
+    want_type = {"TankLevelCondition": "_ControlType.pre_and_postsolve", "TimeOfDayCondition": "_ControlType.presolve", "SimTimeCondition": "_ControlType.presolve"}
+
+    def control_type_after(meth, fn, ccls):
+        """_control_type of a Control object after Control.<meth>(condition of class ccls), starting from a stale type"""
+        make, _log = _concrete(repo, CTRL, lambda name, n, ev: (None if name.startswith("logger.") or name.startswith("warnings.") else NotImplemented))
+        me = Obj("self", {"_control_type": _Opq("<type of the previous condition>"), "_condition": Obj("old", {}, cls="ValueCondition")}, cls="Control")
+        cond = Obj("condition", {"_relation": _Opq("Comparison.gt")}, cls=ccls)
+        env = {"self": me}
+        params = [a.arg for a in fn.args.args][1:]
+        if not params:
+            raise ExtractError("Control.%s takes no condition" % meth)
+        for p, d in zip(params[len(params) - len(fn.args.defaults):], fn.args.defaults):
+            env[p] = _Opq(unparse(d))
+        env[params[0]] = cond
+        for p in params[1:]:
+            env.setdefault(p, _Opq(p))
+        body = fn.body
+        if meth == "__init__":
+            # the base-class constructor (conditions, actions, priority, name) does not decide the control type of a Control: what counts is
+            # what Control.__init__ leaves in _control_type
+            body = [s for s in body if not (isinstance(s, ast.Expr) and isinstance(s.value, ast.Call) and isinstance(s.value.func, ast.Attribute)
+                                            and s.value.func.attr == "__init__" and "super" in unparse(s.value.func.value))]
+        ev = make(env, owner="Control" if meth in own else "Rule")
+        _run_concrete("Control.%s" % meth, lambda: ev.run(body))
+        return _nm(me.attrs.get("_control_type")), _nm(me.attrs.get("_condition"))
     for nm in sorted(set(setters)):
-        eff = own.get(nm) or inherited.get(nm)        # the method a Control object actually runs
-        sets_type = any(isinstance(a, ast.Attribute) and isinstance(a.ctx, ast.Store) and a.attr == "_control_type" for a in walk(eff)) if nm in own else False
-        via_init = nm == "__init__"
         if nm == "__init__":
             continue
-        chk.expect(sets_type, "R-C05-5", "Control.%s re-derives the control type when it replaces the condition" % nm, loc(CTRL, eff),
+        eff = own.get(nm) or inherited.get(nm)        # the method a Control object actually runs
+        got = {c: control_type_after(nm, eff, c) for c in ("TankLevelCondition", "SimTimeCondition", "ValueCondition")}
+        okm = all(got[c][0] == want_type.get(c, "_ControlType.postsolve") and got[c][1] == "condition" for c in got)
+        chk.expect(okm, "R-C05-5", "Control.%s re-derives the control type when it replaces the condition" % nm, loc(CTRL, eff),
                    "the simulator files a control under pre-solve / post-solve by _control_type, fixed from the first condition: a control whose condition was replaced by a "
                    "tank-level condition is never checked before the solve and overshoots its threshold by a whole step", expected="self._control_type = f(condition)",
-                   found="inherited from Rule without touching _control_type" if nm not in own else "no assignment of _control_type")
+                   found=("inherited from Rule without touching _control_type: " if nm not in own else "") + str({c: v[0] for c, v in got.items()}))
     ci_ = own.get("__init__")
-    helper = [c for c in calls(ci_) if last_attr(c) == "_control_type_of"] if ci_ is not None else []
-    tfn = own.get("_control_type_of") if helper else ci_
-    txt = unparse(tfn) if tfn is not None else ""
-    chk.expect(re.search(r"isinstance\(condition, TankLevelCondition\):\s*(return|self\._control_type =) _ControlType\.pre_and_postsolve", txt) is not None and
-               re.search(r"isinstance\(condition, \(TimeOfDayCondition, SimTimeCondition\)\):\s*(return|self\._control_type =) _ControlType\.presolve", txt) is not None, "R-C05-5",
-               "tank-level conditions are pre-and-post-solve, time conditions pre-solve, everything else post-solve", loc(CTRL, tfn) if tfn is not None else CTRL)
+    if ci_ is None:
+        raise AnchorError("Control.__init__ vanished")
+    table = {c: control_type_after("__init__", ci_, c)[0] for c in cond_classes}
+    wantt = {c: want_type.get(c, "_ControlType.postsolve") for c in cond_classes}
+    chk.expect(table == wantt, "R-C05-5", "tank-level conditions are pre-and-post-solve, time conditions pre-solve, everything else post-solve", loc(CTRL, ci_),
+               expected=wantt, found=table)
     chk.floor("R-C05-5", 2)
 
     # ---------------------------------------------------------------- R-C05-6 the partial step of a tank-level condition does not depend on who asked first
     tle = repo.func(CTRL, "TankLevelCondition.evaluate")
     chk.fn(tle)
-    cross = [n for n in walk(tle) if isinstance(n, ast.If) and isinstance(n.test, ast.BoolOp) and "state" in unparse(n.test) and "not relation(" in unparse(n.test)]
-    if not cross:
+    tdefs = _name_defs(tle)
+    # the threshold-crossing guard: the tests under which a non-zero partial step is stored; among their forced atoms the NEGATED
+    # two-argument call is `not relation(<value at the last accepted step>, threshold)`
+    guards = []
+    for n in walk(tle):
+        if isinstance(n, ast.Assign) and any(isinstance(t_, ast.Attribute) and t_.attr == "_backtrack" and unparse(t_.value) == "self" for t_ in n.targets) \
+                and not (const(n.value, None) == 0 and const(n.value, None) is not None):
+            child, p_ = n, parent(n)
+            while p_ is not None and p_ is not tle:
+                if isinstance(p_, ast.If):
+                    for a, pol in _conjuncts(_expand(tle, p_.test, _defs=tdefs), child in p_.body):
+                        if not pol and isinstance(a, ast.Call) and len(a.args) == 2:
+                            guards.append((a, p_))
+                child, p_ = p_, parent(p_)
+    if not guards:
         raise ExtractError("TankLevelCondition.evaluate: threshold-crossing test not found")
-    neg = [v for v in cross[0].test.values if isinstance(v, ast.UnaryOp)][0].operand
-    prev_expr = neg.args[0]
-    while isinstance(prev_expr, ast.Call) and prev_expr.args:
-        prev_expr = prev_expr.args[0]             # np.round(x, 10) -> x
     own_state = {a.attr for a in walk(tle) if isinstance(a, ast.Attribute) and isinstance(a.ctx, ast.Store) and unparse(a.value) == "self"}
-    if isinstance(prev_expr, ast.Name):
-        defs = [a for a in walk(tle) if isinstance(a, ast.Assign) and any(isinstance(t, ast.Name) and t.id == prev_expr.id for t in a.targets)]
-        from_tank = any("_prev_head" in unparse(a.value) or any(isinstance(x, ast.Name) and x.id == "prev_head" for x in ast.walk(a.value)) for a in defs)
-        okp = from_tank
-        found = [norm(a) for a in defs]
-    else:
-        okp = not (isinstance(prev_expr, ast.Attribute) and unparse(prev_expr.value) == "self" and prev_expr.attr in own_state)
-        found = unparse(prev_expr)
-    chk.expect(okp, "R-C05-6", "the 'value at the last accepted step' a tank-level condition compares with comes from the tank, not from a field evaluate() overwrites", loc(tle, cross[0]),
+
+    def from_tank(expr, seen=()):
+        """does the value derive (on some path) from the tank's _prev_head?"""
+        for x in ast.walk(expr):
+            if isinstance(x, ast.Attribute) and x.attr == "_prev_head":
+                return True
+            if isinstance(x, ast.Constant) and x.value == "_prev_head":
+                return True
+            if isinstance(x, ast.Name) and x.id not in seen:
+                for a in walk(tle):
+                    if isinstance(a, ast.Assign) and any(isinstance(t_, ast.Name) and t_.id == x.id for t_ in a.targets) and from_tank(a.value, seen + (x.id,)):
+                        return True
+        return False
+    okp, found = True, []
+    for call_, if_ in guards[:1] if len({unparse(c) for c, i in guards}) == 1 else guards:
+        prev_expr, _d = _strip_round(call_.args[0])
+        if isinstance(prev_expr, ast.Attribute) and unparse(prev_expr.value) == "self" and prev_expr.attr in own_state:
+            okp = False
+        elif not from_tank(prev_expr):
+            okp = okp and not any(isinstance(x, ast.Attribute) and unparse(x.value) == "self" and x.attr in own_state for x in ast.walk(prev_expr)) and False
+        found.append(unparse(prev_expr))
+    chk.expect(okp, "R-C05-6", "the 'value at the last accepted step' a tank-level condition compares with comes from the tank, not from a field evaluate() overwrites", loc(tle, guards[0][1]),
                "evaluate() sets self._last_value on every call: the second control that shares the condition object (the simulator itself pairs every setting control with a "
                "status control on the SAME condition) sees 'already beyond the threshold' and gets no partial step", expected="derived from tank._prev_head", found=found)
 
@@ -221,49 +1003,64 @@ def run(repo, chk):
     # "condition true on the REPORTED state": the pressure a junction condition reads (node.pressure -> _pressure, written by
     # store_results_in_network) is the pressure save_results reports, on the isolated and on the connected path
     import sympy as sp
-    from ._shared import final_stores_sym, forced
-    sfn, rows, ex = final_stores_sym(repo)
-    svf = repo.func("wntr/sim/hydraulics.py", "save_results")
+    sfn = repo.func(HYD, "store_results_in_network")
+    svf = repo.func(HYD, "save_results")
     chk.fn(sfn, svf)
-    jl = [n for n in walk(svf) if isinstance(n, ast.For) and "junctions()" in unparse(n.iter)]
-    if not jl:
-        raise ExtractError("save_results: junction loop not found")
-    rep = {}
-    for c in calls(jl[0]):
-        if last_attr(c) == "append" and "'pressure'" in unparse(c.func.value):
-            g = parent(c)
-            while g is not None and not isinstance(g, ast.If) and g is not jl[0]:
-                g = parent(g)
-            key = "always"
-            if isinstance(g, ast.If) and "_is_isolated" in unparse(g.test):
-                inbody = any(c in list(ast.walk(x)) for x in g.body)
-                pos = "not " not in unparse(g.test)
-                key = "isolated" if inbody == pos else "connected"
-            rep[key] = c.args[0]
-    pp = repo.func("wntr/network/base.py", "Node.pressure")
-    chk.expect(any(isinstance(r, ast.Return) and unparse(r.value) == "self._pressure" for r in walk(pp)), "R-C05-7", "a junction's pressure property returns the stored _pressure", loc(pp))
+    pp = repo.func(BASE, "Node.pressure")
+    chk.expect(returns(pp) == ["self._pressure"], "R-C05-7", "a junction's pressure property returns the stored _pressure", loc(pp))
+    hp = repo.func(BASE, "Node.head")
+    chk.expect(returns(hp) == ["self._head"], "R-C05-7", "a junction's head property returns the stored _head", loc(hp))
+
+    def junction_var(o, fn):
+        for e in o.events:
+            if e[0] == "loop" and "junctions()" in e[2]:
+                tv = [x.strip() for x in e[1].strip("()").split(",")]
+                return e[2], tv[-1]
+        raise ExtractError("%s: junction loop not found" % fn.name)
+
+    def canon(expr, var):
+        expr = sp.sympify(expr)
+        return expr.subs({s: sp.Symbol("J." + s.name[len(var) + 1:], real=True) for s in expr.free_symbols if s.name.startswith(var + ".")})
     done = set()
-    for ctx, conds, finals in rows:
-        if ctx != "wn.junctions()":
-            continue
-        iso = forced("node._is_isolated", conds)
-        if iso is None:
-            continue
+    for iso in (True, False):
         which = "isolated" if iso else "connected"
-        if which in done:
-            continue
+        ex = _sx(attrs=lambda base, attr, iso=iso: iso if attr == "_is_isolated" else NotImplemented)
+        seen_p = head_v = None
+        vals = set()
+        for o in _live(ex.run(sfn)):
+            ctx, var = junction_var(o, sfn)
+            fin = {}
+            for e in o.events:
+                if e[0] == "store" and len(e) > 4 and e[4] and e[4][-1] == ctx:
+                    fin[e[1]] = e[2]
+            p_, h_ = fin.get(var + "._pressure"), fin.get(var + "._head")
+            if p_ is None or h_ is None:
+                raise ExtractError("R-C05-7: pressure bookkeeping not extractable for the %s path" % which)
+            try:
+                p_, h_ = canon(ex.S(p_), var), canon(ex.S(h_), var)
+            except ExtractError:
+                raise ExtractError("R-C05-7: stored pressure / head of the %s path is not an arithmetic expression" % which)
+            vals.add((p_, h_))
+        if len(vals) != 1:
+            raise ExtractError("R-C05-7: stored pressure of the %s path is not unique (%d variants)" % (which, len(vals)))
+        seen_p, head_v = list(vals)[0]
+        ex2 = _sx(attrs=lambda base, attr, iso=iso: iso if attr == "_is_isolated" else NotImplemented)
+        reps = set()
+        for o in _live(ex2.run(svf)):
+            ctx, var = junction_var(o, svf)
+            app = [e for e in o.events if e[0] == "call" and e[2][0] == "?.append" and "'pressure'" in e[1][:_matching_open(e[1])] and len(e) > 4 and e[4] and e[4][-1] == ctx]
+            if len(app) != 1:
+                raise ExtractError("R-C05-7: %d reports of the pressure of a %s junction" % (len(app), which))
+            try:
+                reps.add(canon(ex2.S(app[0][2][1][0]), var))
+            except ExtractError:
+                raise ExtractError("R-C05-7: reported pressure expression not recognised: %s" % _t(app[0][2][1][0]))
+        if len(reps) != 1:
+            raise ExtractError("R-C05-7: reported pressure of the %s path is not unique" % which)
+        sub = {sp.Symbol("J._head", real=True): head_v, sp.Symbol("J.head", real=True): head_v}
+        seen_v = sp.simplify(seen_p.subs(sub))
+        rep_v = sp.simplify(list(reps)[0].subs(sub))
         done.add(which)
-        seen_p, head_v = finals.get("node._pressure"), finals.get("node._head")
-        r_expr = rep.get(which, rep.get("always"))
-        if seen_p is None or head_v is None or r_expr is None:
-            raise ExtractError("R-C05-7: pressure bookkeeping not extractable for the %s path" % which)
-        sub = {ex.sym("node._head"): head_v, ex.sym("node.head"): head_v}
-        seen_v = sp.simplify(sp.sympify(seen_p).subs(sub))
-        from ..symx import SymExec as _SE
-        rv = _SE().S(const(r_expr)) if const(r_expr, None) is not None else sp.sympify(ex.sym("node.head") - ex.sym("node.elevation")) if unparse(r_expr) == "node.head - node.elevation" else None
-        if rv is None:
-            raise ExtractError("R-C05-7: reported pressure expression not recognised: %s" % unparse(r_expr))
-        rep_v = sp.simplify(sp.sympify(rv).subs(sub))
         chk.expect(sp.simplify(seen_v - rep_v) == 0, "R-C05-7", "the pressure a condition reads for a %s junction is the pressure that is reported" % which, loc(sfn),
                    "save_results reports %s for a %s junction while conditions read node.pressure = %s: a pressure control can be true on the reported state and false "
                    "inside the simulator" % (rep_v, which, seen_v), expected=str(rep_v), found=str(seen_v))
@@ -276,6 +1073,128 @@ def run(repo, chk):
     # priority ordered (shared implementation with R-C04-3)
     from .c04 import sort_order_rules
     sort_order_rules(repo, chk, "R-C05-4")
+
+
+# ====================================================================================================================
+# fact extractors used above
+# ====================================================================================================================
+def _is_relation_of_value_and_threshold(txt):
+    """bool(self._relation.func(round(getattr(self._source_obj, self._source_attr), d), round(self._threshold, d))) up to bool() and the
+    spelling of the rounding"""
+    try:
+        e = ast.parse(txt, mode="eval").body
+    except SyntaxError:
+        return False
+    while isinstance(e, ast.Call) and isinstance(e.func, ast.Name) and e.func.id == "bool" and len(e.args) == 1:
+        e = e.args[0]
+    if not (isinstance(e, ast.Call) and unparse(e.func) == "self._relation.func" and len(e.args) == 2 and not e.keywords):
+        return False
+    (a, da), (b, db) = _strip_round(e.args[0]), _strip_round(e.args[1])
+    return da == db and unparse(a) == "getattr(self._source_obj, self._source_attr)" and unparse(b) == "self._threshold"
+
+
+def _tracker_update_facts(upf):
+    """ControlChangeTracker.update(subject): with T = subject.target() and val = getattr(*T), in a loop over the reference points r of
+    self._previous_values: val == self._previous_values[r][T]  =>  self._changed[r].discard(T), otherwise self._changed[r].add(T)."""
+    ex = _sx()
+    outs = _live(ex.run(upf))
+    T = "subject.target()"
+
+    def canon(s):
+        s = s.replace("(%s[0], %s[1])" % (T, T), T).replace("*" + T, "%s[0], %s[1]" % (T, T))
+        return s.replace(" ", "")
+    cur = canon("getattr(%s[0], %s[1])" % (T, T))
+    seen, verdicts = [], []
+    for o in outs:
+        lv = _loop_vars(o)
+        rp = [(it, tv[0]) for it, tv in lv.items() if it.replace(" ", "") in ("self._previous_values.keys()", "self._previous_values", "list(self._previous_values)",
+                                                                             "list(self._previous_values.keys())", "self._changed", "self._changed.keys()") and len(tv) == 1]
+        if len(rp) != 1:
+            return False, "loop over the reference points not found"
+        it, r = rp[0]
+        old = canon("self._previous_values[%s][%s]" % (r, T))
+        equal = None
+        for t_, v in o.conds:
+            c = canon(t_)
+            for op, same in (("==", True), ("!=", False)):
+                if c in (cur + op + old, old + op + cur):
+                    equal = (v == same)
+        ops = [(cal, a) for cal, a, kw, lp, i in _call_events(o) if lp == it and cal.replace(" ", "").startswith("self._changed[%s]." % r)]
+        kinds = sorted({cal.split(".")[-1] for cal, a in ops if [canon(x) for x in a] == [canon(T)]})
+        seen.append((equal, kinds))
+        verdicts.append(equal is not None and kinds == (["discard"] if equal else ["add"]))
+    return bool(verdicts) and all(verdicts) and {e for e, k in seen} == {True, False}, seen
+
+
+def _read_conditional_control(repo, rcl, word, node_type):
+    """evaluate the INP reader on `LINK P1 OPEN IF NODE N1 <word> 12.5` with N1 a node of the given type: the arguments the reader passes to
+    Control._conditional_control -> {'source': 'node'|..., 'attr': ..., 'oper': ...}"""
+    made = []
+
+    def hook(name, n, ev):
+        if name.endswith("Control._conditional_control") or name == "_conditional_control":
+            a = [ev.ev(x) for x in n.args]
+            kw = {k.arg: ev.ev(k.value) for k in n.keywords if k.arg}
+            names = ["source_obj", "source_attr", "operation", "threshold", "control_action", "name"]
+            b = dict(zip(names, a))
+            b.update(kw)
+            made.append(b)
+            return Obj("control", {}, cls="Control")
+        if name.endswith("get_node") and len(n.args) == 1:
+            return Obj("node", {"node_type": node_type, "name": ev.ev(n.args[0]), "elevation": 0.0}, cls=node_type)
+        if name.endswith("get_link") and len(n.args) == 1:
+            return Obj("link", {"link_type": "Pipe", "name": ev.ev(n.args[0])}, cls="Pipe")
+        if name.endswith("ControlAction"):
+            return Obj("action", {}, cls="ControlAction")
+        if name == "to_si":
+            return ev.ev(n.args[1])
+        return NotImplemented
+    make, log = _concrete(repo, IO, hook)
+    line = "LINK P1 OPEN IF NODE N1 %s 12.5" % word
+    env = {"line": line, "wn": _Opq("wn"), "flow_units": _Opq("flow_units"), "control_name": "c1"}
+    params = [a.arg for a in rcl.args.args]
+    for p in params:
+        env.setdefault(p, _Opq(p))
+    ev = make(env)
+    r = _run_concrete("_read_control_line(%r)" % line, lambda: ev.run(rcl.body))
+    if len(made) != 1:
+        return {"source": None, "attr": None, "oper": "no conditional control built (%s)" % (_nm(r),)}
+    b = made[0]
+    return {"source": _nm(b.get("source_obj")), "attr": _nm(b.get("source_attr")), "oper": _nm(b.get("operation"))}
+
+
+def _conditional_control_facts(repo, ccf):
+    """Control._conditional_control(source_obj, source_attr, operation, threshold, control_action): the condition is
+    ValueCondition(source_obj, source_attr, operation, threshold) and the control is Control(that condition, control_action)."""
+    made = {}
+
+    def bind(fn_qual, n, ev):
+        fn = repo.func(CTRL, fn_qual)
+        names = [a.arg for a in fn.args.args][1:]
+        b = dict(zip(names, [ev.ev(x) for x in n.args]))
+        b.update({k.arg: ev.ev(k.value) for k in n.keywords if k.arg})
+        return b
+
+    def hook(name, n, ev):
+        if name == "ValueCondition":
+            made.setdefault("cond", []).append(bind("ValueCondition.__init__", n, ev))
+            return Obj("the condition", {}, cls="ValueCondition")
+        if name in ("Control", "cls"):
+            made.setdefault("ctl", []).append(bind("Control.__init__", n, ev))
+            return Obj("the control", {}, cls="Control")
+        return NotImplemented
+    make, log = _concrete(repo, CTRL, hook)
+    env = {a.arg: _Opq(a.arg) for a in ccf.args.args}
+    for a, d in zip(ccf.args.args[len(ccf.args.args) - len(ccf.args.defaults):], ccf.args.defaults):
+        env[a.arg] = const(d)
+    r = _run_concrete("Control._conditional_control", lambda: make(env, owner="Control").run(ccf.body))
+    seen = {"condition": [{k: _nm(v) for k, v in b.items()} for b in made.get("cond", [])], "control": [{k: _nm(v) for k, v in b.items()} for b in made.get("ctl", [])], "returns": _nm(r)}
+    ok = len(made.get("cond", [])) == 1 and len(made.get("ctl", [])) == 1 and _nm(r) == "the control"
+    if ok:
+        c, k = made["cond"][0], made["ctl"][0]
+        ok = (_nm(c.get("source_obj")), _nm(c.get("source_attr")), _nm(c.get("relation")), _nm(c.get("threshold"))) == ("source_obj", "source_attr", "operation", "threshold") \
+            and _nm(k.get("condition")) == "the condition" and _nm(k.get("then_action")) == "control_action"
+    return ok, seen
 
 
 WITNESSES = [
